@@ -390,6 +390,13 @@ func (y *zzC09Sys) compare(lim int, o *zzC09Obs, g *zzC09Got) (msgs []string) {
 			default:
 				msgs = append(msgs, fmt.Sprintf("hour at age %d: reply has %v, counted %v (total, filtered, safebrowsing, parental)", sl.A, got[1:], want[1:]))
 			}
+
+			if !sl.Opt && !(ok && fmt.Sprint(got) == fmt.Sprint(want)) {
+				// Already reported; the totals below are judged on their own.
+				for j := range kept {
+					kept[j] += r[j]
+				}
+			}
 		}
 
 		for pos, row := range nz {
